@@ -424,6 +424,30 @@ def main():
 ''', hostile=True, only='C01')
 
 
+P('warns', '''
+import warnings
+DATA = {}
+def noisy(i):
+    warnings.warn('this call is deprecated', UserWarning)    # one location: reported once under the default filter
+    return i
+def main():
+    globals().pop('__warningregistry__', None)
+    shown = []
+    old = warnings.showwarning
+    warnings.showwarning = lambda msg, cat, fn, ln, file=None, line=None: shown.append(str(msg))
+    try:
+        total = 0
+        for i in range(4):
+            total += noisy(i)
+            step = i
+    finally:
+        warnings.showwarning = old
+    DATA['shown'] = shown
+    out('warns', len(shown))
+    return total
+''', hostile=True, only='C01')
+
+
 # --------------------------------------------------------------------------------------------
 # Generated programs (thorough tiers): every program of a small statement grammar, de-duplicated by
 # the event signature of its bare run.
